@@ -1,5 +1,5 @@
 (* C14 - Date, time, timestamp and duration conversions are exact. *)
-From Verif Require Import Calendar Calendar_proofs Temporal_proofs Span_proofs.
+From Verif Require Import Calendar Calendar_proofs Temporal_proofs Span_proofs UnitTables UnitSpec.
 Local Open Scope Z_scope.
 
 (* calendar: day numbers and valid civil dates are in bijection, over all of Z
@@ -39,6 +39,13 @@ Theorem C14_timestamp_exact : forall u y m d h mi s nanos,
   total mod 1000000000 = nanos / sub_factor u * sub_factor u.
 Proof. exact timestamp_value_split. Qed.
 
+(* the unit factors are the source's: every `match unit { TimeUnit::X => .. }` of the duration parser / printer, the time
+   builder and reader and the timestamp builder and reader is regenerated from /repo on every run (integer literals of each
+   arm in source order, zero-padding widths, chrono calls) and equals what the model's per_second / sub_factor dictate *)
+Theorem C14_unit_factors_match_source :
+  unit_tables_ok = true /\ forall u, (per_second u * sub_factor u = 1000000000)%Z /\ (per_second u = 10 ^ digits_of u)%Z.
+Proof. split; [exact unit_tables_match|exact factors]. Qed.
+
 (* non-vacuity *)
 Example C14_examples :
   days_from_civil 1970 1 1 = 0 /\ days_from_civil 2000 2 29 = 11016 /\ days_from_civil (-1) 12 31 = -719529 /\
@@ -56,3 +63,4 @@ Print Assumptions C14_days_civil_days.
 Print Assumptions C14_civil_days_civil.
 Print Assumptions C14_duration_exact.
 Print Assumptions C14_timestamp_exact.
+Print Assumptions C14_unit_factors_match_source.
